@@ -195,7 +195,7 @@ func unmarshalDigest(text string) string {
 
 func jsonNotLegacy(r *ev.Run, c *ev.Case, text, shape string) {
 	r.Eval(1)
-	defer func() { ring.Add(r, c, func() string { return unmarshalDigest(text) }, unmarshalDigest(text), text) }()
+	defer func() { ring.Add(r, c, func() string { return ev.Digest(func() string { return unmarshalDigest(text) }) }, ev.Digest(func() string { return unmarshalDigest(text) }), text) }()
 	var got *message.Attributes
 	var err error
 	if r.Guard(c, "Unmarshal", rec{Text: text, What: shape}, func() { got, err = message.Unmarshal(text) }) {
